@@ -65,3 +65,104 @@ def atan2_model(S, st, args):
 
 def install_atan2(sym):
     sym.calls['atan2'] = atan2_model
+
+
+# ---------------------------------------------------------------------------------------------------------------------------
+# Complex arithmetic reached from ImathRoots.h's cubic solver (libstdc++ lowers std::pow(complex,T) to clog/exp/cos/sin, and complex
+# * and / to __muldc3 / __divdc3).  Models over the exact reals; each is the mathematical definition of the C99 function.
+def install_complex(sym):
+    import math
+    from fractions import Fraction
+    from vf.irsym import R, rsub, rdiv, rneg
+    THIRD = Fraction(float.fromhex('0x1.5555555555555p-2'))
+    def agg(a, b): return ('aggv', [a, b])
+    def zero(x):
+        """identically zero (as a polynomial in the inputs)?"""
+        x = R(x)
+        if x.conc(): return x.frac() == 0
+        return z3.is_true(z3.simplify(z3.simplify(x.n, som=True) == 0))
+    def sign_of(S, st, x):
+        """+1 / -1 / 0 when the path condition fixes the sign of x, else None"""
+        x = R(x)
+        if x.conc(): return (x.frac() > 0) - (x.frac() < 0)
+        pos = S.feasible(st, x.n * x.d > 0); neg = S.feasible(st, x.n * x.d < 0); zer = S.feasible(st, x.n == 0)
+        if pos and not neg and not zer: return 1
+        if neg and not pos and not zer: return -1
+        if zer and not pos and not neg: return 0
+        return None
+    def csqrt(S, st, args):
+        a, b = R(args[0]), R(args[1])
+        if not (b.conc() and b.frac() == 0): raise Exception('csqrt model: imaginary part must be the constant 0 here')
+        if zero(a) or sign_of(S, st, a) == 0: return agg(rz(0), rz(0))
+        if a.conc():
+            q = a.frac(); w = S.newreal('csq'); st.pc += [w >= 0, w * w == abs(q)]
+            return agg(Rat(w), rz(0)) if q >= 0 else agg(rz(0), Rat(w))
+        w = S.newreal('csq'); nn = a.n * a.d >= 0
+        st.pc += [w >= 0, z3.If(nn, w * w * a.d == a.n, w * w * a.d == -a.n)]
+        return agg(Rat(z3.If(nn, w, 0)), Rat(z3.If(nn, 0, w)))
+    def clog(S, st, args):
+        a, b = R(args[0]), R(args[1])
+        L = S.newreal('lnmod'); A = S.newreal('carg')
+        S.clogs = getattr(S, 'clogs', {}); S.clogs[str(L)] = (a, b); S.clogs[str(A)] = (a, b)
+        return agg(Rat(L), Rat(A))
+    def _match(S, x):
+        """x == v * (double nearest 1/3) for a clog output v ?  (the constant is treated as exactly 1/3: relative effect 2e-17 * |ln|z||)"""
+        x = R(x)
+        for name, (a, b) in getattr(S, 'clogs', {}).items():
+            v = z3.Real(name)
+            if z3.is_true(z3.simplify(x.n == v * z3.RealVal(str(THIRD)) * x.d)) or z3.is_true(z3.simplify(x.n * THIRD.denominator == v * THIRD.numerator * x.d)): return name, a, b
+        return None
+    def cexp(S, st, args):
+        mt = _match(S, args[0])
+        if mt is None: raise Exception('exp model: argument is not ln|z|/3 of a recorded clog')
+        name, a, b = mt
+        if zero(b) and sign_of(S, st, a) in (1, -1):
+            sg = sign_of(S, st, a); m = S.newreal('cbrtmod'); st.pc += [m > 0, m * m * m * a.d == sg * a.n]
+            return Rat(m)
+        m = S.newreal('cbrtmod'); st.pc += [m >= 0, (m * m * m) * (m * m * m) * (a.d * a.d) * (b.d * b.d) == a.n * a.n * (b.d * b.d) + b.n * b.n * (a.d * a.d)]
+        S.cmods = getattr(S, 'cmods', {}); S.cmods[(str(a.n), str(a.d), str(b.n), str(b.d))] = m
+        return Rat(m)
+    def cdir(S, st, x):
+        mt = _match(S, x)
+        if mt is None: return None
+        name, a, b = mt
+        key = (str(a.n), str(a.d), str(b.n), str(b.d))
+        S.cdirs = getattr(S, 'cdirs', {})
+        if key not in S.cdirs and zero(b) and sign_of(S, st, a) in (1, -1):
+            # z real: arg z is 0 or pi, so the principal cube-root direction is 1 or 1/2 + i sqrt(3)/2
+            if sign_of(S, st, a) == 1: S.cdirs[key] = (z3.RealVal(1), z3.RealVal(0))
+            else:
+                w3 = S.newreal('sqrt3'); st.pc += [w3 > 0, w3 * w3 == 3]
+                S.cdirs[key] = (z3.RealVal(1) / 2, w3 / 2)
+        if key not in S.cdirs:
+            C = S.newreal('c3'); Sn = S.newreal('s3'); h = S.newreal('zmod')
+            # (C + i Sn)^3 == z/|z|, principal: arg/3 in (-pi/3, pi/3]  <=>  C >= 1/2 and not (C == 1/2 and Sn < 0);  z == 0: arg = 0
+            nz = z3.Or(a.n != 0, b.n != 0)
+            st.pc += [C * C + Sn * Sn == 1, h >= 0, h * h * (a.d * a.d) * (b.d * b.d) == a.n * a.n * (b.d * b.d) + b.n * b.n * (a.d * a.d),
+                      z3.Implies(nz, z3.And(2 * C >= 1, z3.Not(z3.And(2 * C == 1, Sn < 0)), h * (C * C * C - 3 * C * Sn * Sn) * a.d == a.n, h * (3 * C * C * Sn - Sn * Sn * Sn) * b.d == b.n)),
+                      z3.Implies(z3.Not(nz), z3.And(C == 1, Sn == 0))]
+            S.cdirs[key] = (C, Sn)
+        return S.cdirs[key]
+    def ccos(S, st, args):
+        r = cdir(S, st, args[0])
+        if r is None: return S.sincos(st, args[0])[1]
+        return Rat(r[0])
+    def csin(S, st, args):
+        r = cdir(S, st, args[0])
+        if r is None: return S.sincos(st, args[0])[0]
+        return Rat(r[1])
+    def cpow(S, st, args):
+        x, y = R(args[0]), R(args[1])
+        if not (y.conc() and y.frac() == THIRD): raise Exception('pow model: exponent must be T(1)/T(3)')
+        c = S.newreal('cbrt'); st.pc += [c >= 0, c * c * c * x.d == x.n]       # callers pass x >= 0 (checked by a feasibility query on x < 0)
+        if S.feasible(st, x.n * x.d < 0): raise Exception('pow model: negative base reachable')
+        return Rat(c)
+    def divdc3(S, st, args):
+        a, b, c, d = [R(v) for v in args]
+        den = radd(rmul(c, c), rmul(d, d))
+        st.pc.append(den.n != 0)
+        return agg(rdiv(radd(rmul(a, c), rmul(b, d)), den), rdiv(rsub(rmul(b, c), rmul(a, d)), den))
+    def muldc3(S, st, args):
+        a, b, c, d = [R(v) for v in args]
+        return agg(rsub(rmul(a, c), rmul(b, d)), radd(rmul(a, d), rmul(b, c)))
+    sym.calls.update({'csqrt': csqrt, 'clog': clog, 'exp': cexp, 'cos': ccos, 'sin': csin, 'pow': cpow, '__divdc3': divdc3, '__muldc3': muldc3})
